@@ -56,7 +56,7 @@ class _Abort(BaseException):
 _ACTIVE = None          # the Scheduler whose execution is in progress (at most one per process)
 _POINTS = {}            # code object -> None (every instruction) | frozenset of offsets
 _TOOL = None
-_WAIT_S = 30.0
+_WAIT_S = 60.0
 
 
 # --------------------------------------------------------------------------- module-level state
